@@ -15,39 +15,55 @@ def LoneSize (m : Msg) (n : Nat) : Prop :=
   (∃ q ∈ m.questions, n = questionAloneSize m.multicast q) ∨ (∃ x ∈ m.answers, n = recordAloneSize m.multicast x) ∨
   (∃ r ∈ m.authorities, n = recordAloneSize m.multicast (r, 0)) ∨ (∃ r ∈ m.additionals, n = recordAloneSize m.multicast (r, 0))
 
+/-- `b` is what one entry of `m` takes when it is written alone: at offset 12, with an empty names table -/
+def LoneBody (m : Msg) (b : Bytes) : Prop :=
+  (∃ q ∈ m.questions, ∃ ns, encQuestion m.multicast 12 [] q = .ok (b, ns)) ∨
+  (∃ x ∈ m.answers, ∃ ns, encRecord m.multicast 12 [] x.1 x.2 = .ok (b, ns)) ∨
+  (∃ r ∈ m.authorities, ∃ ns, encRecord m.multicast 12 [] r 0 = .ok (b, ns)) ∨
+  (∃ r ∈ m.additionals, ∃ ns, encRecord m.multicast 12 [] r 0 = .ok (b, ns))
+
+theorem LoneBody.size {m : Msg} {b : Bytes} (h : LoneBody m b) : LoneSize m (12 + b.length) := by
+  rcases h with ⟨q, hq, ns, he⟩ | ⟨x, hx, ns, he⟩ | ⟨r, hr, ns, he⟩ | ⟨r, hr, ns, he⟩
+  · exact Or.inl ⟨q, hq, by simp [questionAloneSize, he]⟩
+  · exact Or.inr (Or.inl ⟨x, hx, by simp [recordAloneSize, he]⟩)
+  · exact Or.inr (Or.inr (Or.inl ⟨r, hr, by simp [recordAloneSize, he]⟩))
+  · exact Or.inr (Or.inr (Or.inr ⟨r, hr, by simp [recordAloneSize, he]⟩))
+
 /-- the packet under construction still has its 8966-byte allowance only while nothing has been written or registered,
-and is at most 1460 bytes long unless its size is one of `S` -/
-def SizeInv (S : Nat → Prop) (st : St) : Prop :=
-  (st.allowLong = true → st.body = [] ∧ st.names = []) ∧ (st.size ≤ 1460 ∨ S st.size)
+is never longer than 8966 bytes, and is at most 1460 bytes long unless its body is one of `S` -/
+def SizeInv (S : Bytes → Prop) (st : St) : Prop :=
+  (st.allowLong = true → st.body = [] ∧ st.names = []) ∧ st.size ≤ 8966 ∧ (st.size ≤ 1460 ∨ S st.body)
 
-theorem SizeInv.fresh (S : Nat → Prop) : SizeInv S St.fresh :=
-  ⟨fun _ => ⟨rfl, rfl⟩, Or.inl (by simp [St.size, St.fresh, GenFacts.Outgoing.header_len])⟩
+theorem SizeInv.fresh (S : Bytes → Prop) : SizeInv S St.fresh :=
+  ⟨fun _ => ⟨rfl, rfl⟩, by simp [St.size, St.fresh, GenFacts.Outgoing.header_len],
+    Or.inl (by simp [St.size, St.fresh, GenFacts.Outgoing.header_len])⟩
 
-theorem commit_sizeInv (S : Nat → Prop) (st : St) (b : Bytes) (names' : Names) (hinv : SizeInv S st)
-    (hS : st.body = [] → st.names = [] → S (12 + b.length)) : SizeInv S (commit st b names').1 := by
+theorem commit_sizeInv (S : Bytes → Prop) (st : St) (b : Bytes) (names' : Names) (hinv : SizeInv S st)
+    (hS : st.body = [] → st.names = [] → S b) : SizeInv S (commit st b names').1 := by
   unfold commit
   dsimp only
   split
   · rename_i hf
     have hfit := (GenFacts.Outgoing.fits_iff _ _).mp hf
-    refine ⟨fun h => by simp at h, ?_⟩
+    have hlim := GenFacts.Outgoing.len_limit_le st.allowLong
     have hsz : St.size { body := st.body ++ b, names := names', allowLong := false } = st.size + b.length := by
       simp [St.size]; omega
+    refine ⟨fun h => by simp at h, by rw [hsz]; omega, ?_⟩
     rw [hsz]
     cases hal : st.allowLong with
     | true =>
       obtain ⟨hb, hn⟩ := hinv.1 hal
       right
-      have h12 : st.size = 12 := by simp [St.size, hb, GenFacts.Outgoing.header_len]
-      rw [h12]
+      show S (st.body ++ b)
+      rw [hb]
       exact hS hb hn
     | false =>
       rw [hal, GenFacts.Outgoing.len_limit_false] at hfit
       exact Or.inl hfit
-  · exact ⟨fun h => by simp at h, hinv.2⟩
+  · exact ⟨fun h => by simp at h, hinv.2.1, hinv.2.2⟩
 
-theorem writeQuestion_sizeInv (S : Nat → Prop) (mc : Bool) (st st' : St) (q : EQuestion) (ok : Bool) (hinv : SizeInv S st)
-    (hS : S (questionAloneSize mc q)) (hw : writeQuestion mc st q = .ok (st', ok)) : SizeInv S st' := by
+theorem writeQuestion_sizeInv (S : Bytes → Prop) (mc : Bool) (st st' : St) (q : EQuestion) (ok : Bool) (hinv : SizeInv S st)
+    (hS : ∀ b ns, encQuestion mc 12 [] q = .ok (b, ns) → S b) (hw : writeQuestion mc st q = .ok (st', ok)) : SizeInv S st' := by
   unfold writeQuestion at hw
   simp only [bind, Except.bind] at hw
   cases h1 : encQuestion mc st.size st.names q with
@@ -59,12 +75,12 @@ theorem writeQuestion_sizeInv (S : Nat → Prop) (mc : Bool) (st st' : St) (q : 
       intro hb hn
       have h12 : st.size = 12 := by simp [St.size, hb, GenFacts.Outgoing.header_len]
       rw [h12, hn] at h1
-      simpa [questionAloneSize, h1] using hS)
+      exact hS b names' h1)
     rw [hw] at this
     exact this
 
-theorem writeRecord_sizeInv (S : Nat → Prop) (mc : Bool) (st st' : St) (r : ERecord) (now : Ms) (ok : Bool) (hinv : SizeInv S st)
-    (hS : S (recordAloneSize mc (r, now))) (hw : writeRecord mc st r now = .ok (st', ok)) : SizeInv S st' := by
+theorem writeRecord_sizeInv (S : Bytes → Prop) (mc : Bool) (st st' : St) (r : ERecord) (now : Ms) (ok : Bool) (hinv : SizeInv S st)
+    (hS : ∀ b ns, encRecord mc 12 [] r now = .ok (b, ns) → S b) (hw : writeRecord mc st r now = .ok (st', ok)) : SizeInv S st' := by
   unfold writeRecord at hw
   simp only [bind, Except.bind] at hw
   cases h1 : encRecord mc st.size st.names r now with
@@ -76,7 +92,7 @@ theorem writeRecord_sizeInv (S : Nat → Prop) (mc : Bool) (st st' : St) (r : ER
       intro hb hn
       have h12 : st.size = 12 := by simp [St.size, hb, GenFacts.Outgoing.header_len]
       rw [h12, hn] at h1
-      simpa [recordAloneSize, h1] using hS)
+      exact hS b names' h1)
     rw [hw] at this
     exact this
 
@@ -113,9 +129,11 @@ theorem sectionLoop_inv {α : Type} (w : St → α → Except PyExc (St × Bool)
           rw [← hw.1]
           exact ih st1 st2 n2 hi1 (fun x hx => hp x (by simp [hx])) h2
 
-/-- one datagram: at most 1460 bytes, or exactly as long as the datagram that carries one of the message's entries alone -/
+/-- one datagram: never longer than 8966 bytes; at most 1460 bytes, or **the 12-byte header followed by exactly the bytes
+one of the message's entries takes when written alone** -/
 theorem onePacket_lone (m : Msg) (o o' : Offsets) (pkt : Bytes) (progress more : Bool)
-    (h : onePacket m o = .ok (pkt, o', progress, more)) : pkt.length ≤ 1460 ∨ LoneSize m pkt.length := by
+    (h : onePacket m o = .ok (pkt, o', progress, more)) :
+    pkt.length ≤ 8966 ∧ (pkt.length ≤ 1460 ∨ LoneBody m (pkt.drop 12)) := by
   unfold onePacket at h
   simp only [bind, Except.bind, writeRecords, writeQuestions_eq_loop, writeAnswers_eq_loop] at h
   cases h1 : sectionLoop (writeQuestion m.multicast) St.fresh (m.questions.drop o.q) with
@@ -145,27 +163,27 @@ theorem onePacket_lone (m : Msg) (o o' : Offsets) (pkt : Bytes) (progress more :
   case isTrue hlt =>
   simp only [pure, Except.pure, Except.ok.injEq, Prod.mk.injEq] at h
   obtain ⟨hpkt, _⟩ := h
-  have i1 : SizeInv (LoneSize m) s1 :=
-    sectionLoop_inv _ (SizeInv (LoneSize m)) (fun q => q ∈ m.questions)
-      (fun st a st' ok hi hp hw => writeQuestion_sizeInv _ m.multicast st st' a ok hi (Or.inl ⟨a, hp, rfl⟩) hw)
+  have i1 : SizeInv (LoneBody m) s1 :=
+    sectionLoop_inv _ (SizeInv (LoneBody m)) (fun q => q ∈ m.questions)
+      (fun st a st' ok hi hp hw => writeQuestion_sizeInv _ m.multicast st st' a ok hi (fun b ns he => Or.inl ⟨a, hp, ns, he⟩) hw)
       _ _ _ _ (SizeInv.fresh _) (fun q hq => List.mem_of_mem_drop hq) h1
-  have i2 : SizeInv (LoneSize m) s2 :=
-    sectionLoop_inv _ (SizeInv (LoneSize m)) (fun x => x ∈ m.answers)
-      (fun st a st' ok hi hp hw => writeRecord_sizeInv _ m.multicast st st' a.1 a.2 ok hi (Or.inr (Or.inl ⟨a, hp, rfl⟩)) hw)
+  have i2 : SizeInv (LoneBody m) s2 :=
+    sectionLoop_inv _ (SizeInv (LoneBody m)) (fun x => x ∈ m.answers)
+      (fun st a st' ok hi hp hw => writeRecord_sizeInv _ m.multicast st st' a.1 a.2 ok hi (fun b ns he => Or.inr (Or.inl ⟨a, hp, ns, he⟩)) hw)
       _ _ _ _ i1 (fun x hx => List.mem_of_mem_drop hx) h2
-  have i3 : SizeInv (LoneSize m) s3 :=
-    sectionLoop_inv _ (SizeInv (LoneSize m)) (fun (x : ERecord × Ms) => x.1 ∈ m.authorities ∧ x.2 = 0)
+  have i3 : SizeInv (LoneBody m) s3 :=
+    sectionLoop_inv _ (SizeInv (LoneBody m)) (fun (x : ERecord × Ms) => x.1 ∈ m.authorities ∧ x.2 = 0)
       (fun st a st' ok hi hp hw => writeRecord_sizeInv _ m.multicast st st' a.1 a.2 ok hi
-        (Or.inr (Or.inr (Or.inl ⟨a.1, hp.1, by rw [← hp.2]⟩))) hw)
+        (fun b ns he => Or.inr (Or.inr (Or.inl ⟨a.1, hp.1, ns, by rw [← hp.2]; exact he⟩))) hw)
       _ _ _ _ i2 (by
         intro x hx
         simp only [List.mem_map] at hx
         obtain ⟨r, hr, rfl⟩ := hx
         exact ⟨List.mem_of_mem_drop hr, rfl⟩) h3
-  have i4 : SizeInv (LoneSize m) s4 :=
-    sectionLoop_inv _ (SizeInv (LoneSize m)) (fun (x : ERecord × Ms) => x.1 ∈ m.additionals ∧ x.2 = 0)
+  have i4 : SizeInv (LoneBody m) s4 :=
+    sectionLoop_inv _ (SizeInv (LoneBody m)) (fun (x : ERecord × Ms) => x.1 ∈ m.additionals ∧ x.2 = 0)
       (fun st a st' ok hi hp hw => writeRecord_sizeInv _ m.multicast st st' a.1 a.2 ok hi
-        (Or.inr (Or.inr (Or.inr ⟨a.1, hp.1, by rw [← hp.2]⟩))) hw)
+        (fun b ns he => Or.inr (Or.inr (Or.inr ⟨a.1, hp.1, ns, by rw [← hp.2]; exact he⟩))) hw)
       _ _ _ _ i3 (by
         intro x hx
         simp only [List.mem_map] at hx
@@ -174,11 +192,15 @@ theorem onePacket_lone (m : Msg) (o o' : Offsets) (pkt : Bytes) (progress more :
   have hlen : pkt.length = s4.size := by
     rw [← hpkt]
     simp only [St.size, List.length_append, be16_length, GenFacts.Outgoing.header_len]
-  rw [hlen]
+  have hdrop : pkt.drop 12 = s4.body := by
+    rw [← hpkt]
+    simp only [List.append_assoc]
+    rfl
+  rw [hlen, hdrop]
   exact i4.2
 
 theorem packetsLoop_lone (m : Msg) : ∀ (fuel : Nat) (o : Offsets) (pks : List Bytes), packetsLoop m fuel o = .ok pks →
-    ∀ p ∈ pks, p.length ≤ 1460 ∨ LoneSize m p.length := by
+    ∀ p ∈ pks, p.length ≤ 8966 ∧ (p.length ≤ 1460 ∨ LoneBody m (p.drop 12)) := by
   intro fuel
   induction fuel with
   | zero =>
